@@ -280,7 +280,12 @@ class Exec:
         self.npaths = 0
         out = []
         st = _State(dict(args), 0, [], {}, ())
+        helpers = self.prog.auto_inline()
         for (st2, exit, ret) in self._run(body, st, 0, frozenset(), ()):
+            if exit[0] == "retry-inner" and exit[1] in helpers:
+                # the loop lives in a helper introduced by refactoring: it is this function's loop
+                last = st2.trace[-1][1] if st2.trace else 0
+                exit = ("retry", last, exit[1])
             pa = Path(body, st2.events, exit, ret, st2.trace)
             pa.env = st2.env
             out.append(pa)
@@ -621,6 +626,8 @@ class Exec:
             t = t[1]
         if isinstance(t, tuple) and t[0] == "agg" and isinstance(t[1], str) and t[1].startswith("closure:"):
             return self.prog.bodies.get(t[1][len("closure:"):])
+        if isinstance(t, tuple) and t[0] == "fn" and isinstance(t[1], str):
+            return _FnShim(t[1], self.prog.bodies.get(t[1]))
         return None
 
     def _call(self, body, st, bb, t, onpath, frame):
@@ -667,9 +674,27 @@ class Exec:
                     yield r
             return
 
+        # -- a call through a closure value or fn item held in a variable/parameter (`f(x)` where f: impl Fn..)
+        if nt in ("std::ops::FnOnce::call_once", "std::ops::FnMut::call_mut", "std::ops::Fn::call") and args:
+            dyn_cb = self._closure_body(args[0])
+            if dyn_cb is not None and len(frame) < 8 and (dyn_cb.name not in frame or isinstance(dyn_cb, _FnShim)):
+                st.events.append(Event("enter", bb, frame, body, target=dyn_cb.name, ntarget=norm(dyn_cb.name), args=args, span=span))
+                for (st3, ex, ret) in self._inline(dyn_cb, st, args, frame, bb, body, untuple=True):
+                    if ex[0] != "return":
+                        yield (st3, ex if ex[0] == "diverge" else ("retry-inner", dyn_cb.name), None)
+                        continue
+                    st3.events.append(Event("leave", bb, frame, body, target=dyn_cb.name, ntarget=norm(dyn_cb.name), ret=ret, span=span))
+                    for r in cont(st3, ret):
+                        yield r
+                return
         # -- higher-order models
         if self.models:
-            m = HIGHER_ORDER.get(nt)
+            mk = nt
+            if nt and nt.endswith(" as std::ops::Try>::branch"):
+                mk = "std::ops::Try::branch"
+            elif nt and nt.endswith(">::from_residual") and " as std::ops::FromResidual<" in nt:
+                mk = "std::ops::FromResidual::from_residual"
+            m = HIGHER_ORDER.get(mk)
             if m is not None:
                 handled = False
                 for r in m(self, body, st, bb, t, c, args, frame, cont, target, nt, span):
@@ -712,6 +737,38 @@ class Exec:
             yield r
 
     def _inline(self, cbody, st, args, frame, bb, caller, untuple):
+        if isinstance(cbody, _FnShim):
+            # a fn item used as a callable value: a direct call with the (untupled) arguments
+            tup = args[1] if untuple and len(args) > 1 else None
+            if untuple:
+                real = list(tup[3]) if isinstance(tup, tuple) and tup[0] == "agg" and tup[1] == "tuple" else []
+            else:
+                real = list(args[1:])
+            target = cbody.name
+            nt = norm(target)
+            rb = cbody.real
+            if rb is not None and (target in self.inline or nt in self.inline) and len(frame) < 8 and target not in frame:
+                st.events.append(Event("enter", bb, frame, caller, target=target, ntarget=nt, args=real, span=None))
+                for (st3, ex, ret) in self._inline(rb, st, real, frame, bb, caller, untuple=False):
+                    if ex[0] == "return":
+                        st3.events.append(Event("leave", bb, frame, caller, target=target, ntarget=nt, ret=ret, span=None))
+                    yield (st3, ex, ret)
+                return
+            proj = _project(nt, real)
+            st2 = st.fork()
+            if proj is not None:
+                st2.events.append(Event("call", bb, frame, caller, target=target, ntarget=nt, args=real, result=proj,
+                                        callee=_FakeCallee(target), span=None, fterm=None, pure=True))
+                yield (st2, ("return",), proj)
+                return
+            pure = (nt in PURE_EXTERNAL) or (target in self.pure) or (nt in self.pure)
+            res = ("call", target, tuple(real), None if pure else fresh())
+            st2.events.append(Event("call", bb, frame, caller, target=target, ntarget=nt, args=real, result=res,
+                                    callee=_FakeCallee(target), span=None, fterm=None, pure=pure))
+            if not pure:
+                st2.memver += 1
+            yield (st2, ("return",), res)
+            return
         env = {}
         if untuple:
             # rust-call ABI: (closure_self, (a, b, ..)) -> _1 = self, _2.. = tuple fields
@@ -841,11 +898,56 @@ def _range_update(st, key, v):
     st.ranges[x] = (lo, hi, ne)
 
 
+class _FnShim:
+    """a fn item standing where a closure is expected (`opt.map_or(true, RcInner::try_increment_strong)`)"""
+    kind = "fnitem"
+
+    def __init__(self, name, real):
+        self.name = name
+        self.real = real
+
+
+class _FakeCallee:
+    """callee record for a call made through a fn-item value"""
+    def __init__(self, target):
+        self.name = target
+        self.full = target
+        self.resolved = target
+        self.target = target
+        self.args = []
+        self.is_ptr = False
+        self.trait = None
+
+    def closure_args(self):
+        return []
+
+    def const_args(self):
+        return []
+
+    def type_args(self):
+        return []
+
+
+def _okp(r):
+    return ("field", "0", ("variant", "Ok", r))
+
+
+def _errp(r):
+    return ("field", "0", ("variant", "Err", r))
+
+
 def _project(nt, args):
     """Result::ok/err/unwrap/unwrap_err/expect and Option::unwrap/expect as payload projections."""
     if not args:
         return None
     a = args[0]
+    if nt in ("core::num::nonzero::NonZero::get", "std::num::NonZero::get"):
+        if isinstance(a, tuple) and a[0] == "nz":
+            return a[1]
+        if isinstance(a, tuple) and a[0] == "field" and isinstance(a[2], tuple) and a[2][0] == "variant" and \
+                isinstance(a[2][2], tuple) and a[2][2][0] == "nzopt":
+            return a[2][2][1]
+        return None
     if nt in ("std::result::Result::ok",):
         return ("okopt", a)
     if nt in ("std::result::Result::err",):
@@ -1138,18 +1240,32 @@ def _model_unwrap_or_else(ex, body, st, bb, t, c, args, frame, cont, target, nt,
         return
     # unknown discriminant: both
     st_ok = st.fork()
-    st_ok.events.append(Event("cond", bb, frame, body, term=("is_ok", r0), value=1, exp=False, span=span, is_bool=True))
-    for r in cont(st_ok, ("ok_payload", r0)):
-        yield r
+    if _res_cond(st_ok, r0, True, bb, frame, body, span):
+        for r in cont(st_ok, _okp(r0)):
+            yield r
     st_e = st.fork()
-    st_e.events.append(Event("cond", bb, frame, body, term=("is_ok", r0), value=0, exp=False, span=span, is_bool=True))
-    tup = ("agg", "tuple", None, (("err_payload", r0),), None, ())
+    if not _res_cond(st_e, r0, False, bb, frame, body, span):
+        return
+    tup = ("agg", "tuple", None, (_errp(r0),), None, ())
     for (st3, exi, ret) in ex._inline(cb, st_e, [args[1], tup], frame, bb, body, untuple=True):
         if exi[0] != "return":
             yield (st3, exi if exi[0] == "diverge" else ("retry-inner", cb.name), None)
             continue
         for r in cont(st3, ret):
             yield r
+
+
+def _res_cond(st, r0, ok, bb, frame, body, span):
+    """record `r0 is Ok` (ok=True) / `r0 is Err` on state st as a discriminant condition (Ok = 0, Err = 1), the
+    same term a `match` on r0 produces; False when the path already decided otherwise"""
+    v = 0 if ok else 1
+    key = ("disc", r0)
+    kn = st.known.get(key)
+    if kn is not None and not _consistent(kn, v):
+        return False
+    st.known[key] = v
+    st.events.append(Event("cond", bb, frame, body, term=key, value=v, exp=False, span=span, is_bool=False))
+    return True
 
 
 def _mk_map(which):
@@ -1168,13 +1284,15 @@ def _mk_map(which):
             return
         # runs
         st_r = st.fork()
-        st_r.events.append(Event("cond", bb, frame, body, term=("is_ok", r0), value=1 if which == "map" else 0,
-                                 exp=False, span=span, is_bool=True))
-        payload = ("ok_payload" if which == "map" else "err_payload", r0)
+        payload = _okp(r0) if which == "map" else _errp(r0)
+        runs = True
         if known_variant == run_variant:
-            payload = r0[3][0]
-            st_r.events.pop()   # the variant is known: no condition to record
-        if cb is not None:
+            payload = r0[3][0]   # the variant is known: no condition to record
+        else:
+            runs = _res_cond(st_r, r0, which == "map", bb, frame, body, span)
+        if not runs:
+            pass
+        elif cb is not None:
             st_r.events.append(Event("hof", bb, frame, body, target=target, ntarget=nt, args=args, closure=cb.name,
                                      span=span, model="runs-iff-" + run_variant))
             tup = ("agg", "tuple", None, (payload,), None, ())
@@ -1194,9 +1312,9 @@ def _mk_map(which):
             return
         # does not run
         st_k = st.fork()
-        st_k.events.append(Event("cond", bb, frame, body, term=("is_ok", r0), value=0 if which == "map" else 1,
-                                 exp=False, span=span, is_bool=True))
-        kp = ("err_payload" if which == "map" else "ok_payload", r0)
+        if not _res_cond(st_k, r0, which != "map", bb, frame, body, span):
+            return
+        kp = _errp(r0) if which == "map" else _okp(r0)
         res = ("agg", "std::result::Result", keep_variant, (kp,), 1 if keep_variant == "Err" else 0, ("0",))
         for r in cont(st_k, res):
             yield r
@@ -1353,7 +1471,156 @@ def _model_bool_then(ex, body, st, bb, t, c, args, frame, cont, target, nt, span
                 yield r
 
 
+def _model_bool_then_some(ex, body, st, bb, t, c, args, frame, cont, target, nt, span):
+    b, val = args[0], args[1]
+    neg = False
+    key = b
+    while isinstance(key, tuple) and key[0] == "un" and key[1] == "Not":
+        key = key[2]
+        neg = not neg
+    vals = [0, 1]
+    if isinstance(key, tuple) and key[0] == "c" and isinstance(key[1], int):
+        vals = [key[1]]
+    known = st.known.get(key)
+    for v in vals:
+        if known is not None and isinstance(known, int) and known != v:
+            continue
+        s2 = st.fork()
+        if not (isinstance(key, tuple) and key[0] == "c"):
+            s2.known[key] = v
+            s2.events.append(Event("cond", bb, frame, body, term=key, value=v, exp=False, span=span, is_bool=True))
+        for r in cont(s2, _some(val) if (bool(v) != neg) else _NONE):
+            yield r
+
+
+def _model_option_filter(ex, body, st, bb, t, c, args, frame, cont, target, nt, span):
+    """Option::filter(o, p): Some(x) iff o is Some(x) and p(&x)"""
+    o, clos = args[0], args[1] if len(args) > 1 else None
+    cb = ex._closure_body(clos)
+    if cb is None:
+        return
+    for (s2, is_some, payload) in _opt_cases(st, o, bb, frame, body, span):
+        if not is_some:
+            for r in cont(s2, _NONE):
+                yield r
+            continue
+        for (s3, ret, ex_) in _run_closure(ex, body, s2, bb, frame, cb, clos, [("ref", payload)], target, nt, span, "predicate"):
+            if ex_ is not None:
+                yield (s3, ex_, None)
+                continue
+            if isinstance(ret, tuple) and ret[0] == "c" and isinstance(ret[1], int):
+                for r in cont(s3, _some(payload) if ret[1] else _NONE):
+                    yield r
+                continue
+            for v in (1, 0):
+                s4 = s3.fork()
+                s4.known[ret] = v
+                s4.events.append(Event("cond", bb, frame, body, term=ret, value=v, exp=False, span=span, is_bool=True))
+                for r in cont(s4, _some(payload) if v else _NONE):
+                    yield r
+
+
+def _model_try_branch(ex, body, st, bb, t, c, args, frame, cont, target, nt, span):
+    """<Option<T>/Result<T,E> as Try>::branch: Continue(payload) / Break(residual)"""
+    o = args[0]
+    full = (c.full or "") if c is not None else ""
+    is_res = "Result<" in full
+    good, badv = ("Ok", "Err") if is_res else ("Some", "None")
+    if isinstance(o, tuple) and o[0] == "agg" and o[2] in (good, badv):
+        cases = [(st, o[2] == good)]
+    else:
+        cases = []
+        for g in (True, False):
+            s2 = st.fork()
+            if is_res:
+                if not _res_cond(s2, o, g, bb, frame, body, span):
+                    continue
+            else:
+                known = s2.known.get(("disc", o))
+                if known is not None and not _consistent(known, 1 if g else 0):
+                    continue
+                s2.known[("disc", o)] = 1 if g else 0
+                s2.events.append(Event("cond", bb, frame, body, term=("disc", o), value=1 if g else 0, exp=False, span=span, is_bool=False))
+            cases.append((s2, g))
+    for (s2, g) in cases:
+        if g:
+            payload = o[3][0] if isinstance(o, tuple) and o[0] == "agg" and o[3] else ("field", "0", ("variant", good, o))
+            res = ("agg", "std::ops::ControlFlow", "Continue", (payload,), 0, ("0",))
+        else:
+            resid = o if not is_res else ("agg", "std::result::Result", "Err", (_errp(o),), 1, ("0",))
+            if not is_res:
+                resid = _NONE
+            res = ("agg", "std::ops::ControlFlow", "Break", (resid,), 1, ("0",))
+        for r in cont(s2, res):
+            yield r
+
+
+def _model_from_residual(ex, body, st, bb, t, c, args, frame, cont, target, nt, span):
+    for r in cont(st, args[0]):
+        yield r
+
+
+def _model_checked_sub(ex, body, st, bb, t, c, args, frame, cont, target, nt, span):
+    """usize::checked_sub(x, k): Some(x - k) iff x >= k"""
+    x, k = args[0], args[1]
+    key = ("bin", "Ge", x, k)
+    for v in (1, 0):
+        s2 = st.fork()
+        kn = s2.known.get(key)
+        if kn is None:
+            kn = _range_eval(s2, key)
+        if kn is not None and kn != v:
+            continue
+        s2.known[key] = v
+        _range_update(s2, key, v)
+        s2.events.append(Event("cond", bb, frame, body, term=key, value=v, exp=False, span=span, is_bool=True))
+        res = _some(("bin", "Sub", x, k)) if v else _NONE
+        for r in cont(s2, res):
+            yield r
+
+
+def _model_nonzero_new(ex, body, st, bb, t, c, args, frame, cont, target, nt, span):
+    """NonZero::new(x): Some(nz) iff x != 0"""
+    x = args[0]
+    cv = x[1] if isinstance(x, tuple) and x[0] == "c" and isinstance(x[1], int) else None
+    key = ("bin", "Ne", x, ("c", 0, "usize"))
+    for v in ((1, 0) if cv is None else ((1,) if cv != 0 else (0,))):
+        s2 = st.fork()
+        if cv is None:
+            kn = _range_eval(s2, key)
+            if kn is not None and kn != v:
+                continue
+            s2.known[key] = v
+            _range_update(s2, key, v)
+            s2.events.append(Event("cond", bb, frame, body, term=key, value=v, exp=False, span=span, is_bool=True))
+        res = _some(("nz", x)) if v else _NONE
+        for r in cont(s2, res):
+            yield r
+
+
+def _model_cell_replace(ex, body, st, bb, t, c, args, frame, cont, target, nt, span):
+    """Cell::replace(c, v) == { let old = c.get(); c.set(v); old } ; Cell::take(c) == replace(c, Default)"""
+    cell = args[0]
+    val = args[1] if len(args) > 1 else ("c", 0, "default")
+    old = ("call", "std::cell::Cell::<T>::get", (cell,), fresh())
+    st.events.append(Event("call", bb, frame, body, target="std::cell::Cell::<T>::get", ntarget="std::cell::Cell::get",
+                           args=[cell], result=old, callee=c, span=span, fterm=None, pure=False))
+    st.memver += 1
+    st.events.append(Event("call", bb, frame, body, target="std::cell::Cell::<T>::set", ntarget="std::cell::Cell::set",
+                           args=[cell, val], result=("c", "()", "()"), callee=c, span=span, fterm=None, pure=False))
+    st.memver += 1
+    for r in cont(st, old):
+        yield r
+
+
 HIGHER_ORDER = {
+    "std::ops::Try::branch": _model_try_branch,
+    "std::ops::FromResidual::from_residual": _model_from_residual,
+    "core::num::nonzero::NonZero::new": _model_nonzero_new,
+    "std::num::NonZero::new": _model_nonzero_new,
+    "core::num::checked_sub": _model_checked_sub,
+    "std::cell::Cell::replace": _model_cell_replace,
+    "std::cell::Cell::take": _model_cell_replace,
     "std::option::Option::map": _mk_option_model("map"),
     "std::option::Option::and_then": _mk_option_model("and_then"),
     "std::option::Option::is_some_and": _mk_option_model("is_some_and"),
@@ -1361,6 +1628,8 @@ HIGHER_ORDER = {
     "std::option::Option::map_or_else": _mk_option_model("map_or_else"),
     "std::option::Option::unwrap_or_else": _mk_option_model("unwrap_or_else"),
     "core::bool::then": _model_bool_then,
+    "core::bool::then_some": _model_bool_then_some,
+    "std::option::Option::filter": _model_option_filter,
     "std::thread::LocalKey::with": _model_with,
     "std::thread::LocalKey::try_with": _model_try_with,
     "std::result::Result::unwrap_or_else": _model_unwrap_or_else,
